@@ -72,6 +72,10 @@ def nested_models():
         yield 'enum-mixin', {'classes': BASE + [em], 'root': ('list', ('cls', 'Em'))}
         yield 'enum-mixin', {'classes': BASE + [em, {'name': 'K', 'params': [('e', ('cls', 'Em')), ('s', 'str', 'high')]}],
                              'root': ('cls', 'K')}
+    yield 'underscore-param', {'classes': BASE + [{'name': 'K', 'params': [('x', 'int'), ('_y', 'int', 0), ('_a', 'any', None)]}],
+                               'root': ('cls', 'K')}
+    yield 'underscore-param', {'classes': BASE + [{'name': 'K', 'params': [('_x', ('cls', 'In')), ('_l', ('list', 'int'), None)],
+                                                   'extra': True}], 'root': ('cls', 'K')}
     yield 'extra-middle', {'classes': BASE + [{'name': 'K', 'params': [('x', 'int'), ('y', 'int', 0)], 'extra': True, 'extra_pos': 1}],
                            'root': ('cls', 'K')}
     yield 'dashed', {'classes': BASE + [{'name': 'K', 'params': [('a_b', 'int'), ('c_d_e', 'str', 'x')], 'extra': True}],
@@ -110,11 +114,28 @@ def seasoned_models():
                      'root': ('list', ('cls', 'K'))}
 
 
+def shorthand_models():
+    """classes that accept a scalar short form through a custom recogniser and a savorize (docs/recipes: 'short forms')"""
+    B1 = lambda v: ('s', 'bool', v)   # noqa
+    F1 = lambda v: ('s', 'float', v)  # noqa
+    I1 = lambda v: ('s', 'int', v)    # noqa
+    S1 = lambda v: ('s', 'str', v)    # noqa
+    for t, good in (('bool', [B1('true'), B1('FALSE')]), ('float', [F1('1.5'), F1('1e3')]), ('int', [I1('7')]),
+                    ('str', [S1('a'), S1('yes')]), (('union', ['bool', 'str']), [B1('True'), S1('on')])):
+        k = {'name': 'K', 'params': [('v', t), ('w', 'str', 'dw')],
+             'hooks': {'recognize': [('permissive',)], 'savorize': [('scalar_to_attr', 'v')]},
+             'docs': good + [B1('false'), S1('true'), I1('1'), F1('.5')]}
+        yield 'shorthand', {'classes': BASE + [k], 'root': ('dict', 'str', ('cls', 'K'))}
+        yield 'shorthand', {'classes': BASE + [k], 'root': ('list', ('cls', 'K'))}
+
+
 # ---------------------------------------------------------------- hierarchies (C03)
 
 SHAPES = {'chain2': [None, 0], 'chain3': [None, 0, 1], 'fork2': [None, 0, 0], 'chainfork': [None, 0, 1, 1],
           'forkchain': [None, 0, 0, 1], 'fork3': [None, 0, 0, 0], 'chain4': [None, 0, 1, 2],
-          'diamond': [None, 0, 0, (1, 2)]}
+          'diamond': [None, 0, 0, (1, 2)],
+          # five classes: a diamond with one more subclass on one side / below the join
+          'diamondx': [None, 0, 0, (1, 2), 2], 'diamondy': [None, 0, 0, (1, 2), 1], 'diamondz': [None, 0, 0, (1, 2), 3]}
 ADD = ['none', 'req', 'opt']
 
 
@@ -162,7 +183,7 @@ def all_load_models(tier):
     """the C02 catalogue: auto-recognised models"""
     out = []
     for gen in (root_models(), one_param_models(), two_param_models(full=(tier == 'thorough')),
-                nested_models(), seasoned_models()):
+                nested_models(), seasoned_models(), shorthand_models()):
         for fam, spec in gen:
             if spec is not None:
                 out.append((fam, spec))
